@@ -96,6 +96,17 @@ func (r *Runner) DumpKBytes(rnd *vlib.RNG, maxBytes int) (cs string, st KBytesSt
 					dup = true
 				}
 			}
+			// the commit hook may not have recorded the new table's entries yet: the flushed table's recorded smallest
+			// key IS the frozen buffer's first entry (same user key, same sequence number)
+			if n := len(t.Imin); n >= 8 {
+				var num uint64
+				for b := 0; b < 8; b++ {
+					num |= uint64(t.Imin[n-8+b]) << (8 * uint(b))
+				}
+				if num>>8 == f0.Seq && bytes.Equal(t.Imin[:n-8], f0.Ukey) {
+					dup = true
+				}
+			}
 		}
 		r.mu.Unlock()
 		if dup {
